@@ -32,7 +32,7 @@ EXHAUSTIVE = "archive matrix: 2 kinds x 3 compression types x default/explicit p
 MUTS = ['append', 'setitem', 'truncate', 'meta', 'delete']
 MUST_HIT = ['copy:Array', 'copy:Ragged', 'src:empty-array', 'src:ragged-nosub', 'dtype:None', 'dtype:given', 'dtype:same-type-other-byteorder',
             'chunk<len', 'archive:xz', 'archive:gz', 'archive:bz2', 'archive:explicit-path', 'archive:existing+ow=False',
-            'archive:existing+ow=True', 'meta:nested', 'target-occupied-by-array-with-metadata', 'source-metadata-emptied',
+            'archive:existing+ow=True', 'archive:spelling', 'meta:nested', 'target-occupied-by-array-with-metadata', 'source-metadata-emptied',
             'returned-metadata-values-mutated-by-caller'] + ['mut:' + m for m in MUTS]
 
 
@@ -92,7 +92,69 @@ def read_all(h, kind):
 def execute(ctx, spec):
     if spec['f'] == 'copy':
         return _exec_copy(ctx, spec)
+    if spec['f'] == 'archive-spelling':
+        return _exec_archive_spelling(ctx, spec)
     return _exec_archive(ctx, spec)
+
+
+SPELLINGS = ['name', './name', 'sub/../name', '~/name', '~', '$HOME/name', 'abs', 'abs-home']
+
+
+def _exec_archive_spelling(ctx, spec):
+    """archive(filepath=<spelling>) with older files sitting at every place the spelling could be taken to mean (the working
+    directory, the home directory, a directory literally called '~' or '$HOME'): without overwrite nothing that exists may
+    change, and with overwrite only the file the spelling names as given."""
+    import darr, pathlib
+    out = Outcome()
+    sp, ow, kind = spec['spelling'], spec['ow'], spec['kind']
+    out.cls('archive:spelling:' + sp, 'archive:spelling')
+    with ctx.scratch() as d:
+        home, cwd = os.path.join(d, 'home'), os.path.join(d, 'work')
+        for p_ in (home, cwd, os.path.join(cwd, 'sub'), os.path.join(cwd, '~'), os.path.join(cwd, '$HOME')):
+            os.mkdir(p_)
+        name = 'backup.tar.' + spec['ct']
+        for p_ in (home, cwd, os.path.join(cwd, '~'), os.path.join(cwd, '$HOME')):
+            with open(os.path.join(p_, name), 'wb') as f:
+                f.write(b'an older archive: ' + p_.encode())
+        ap = os.path.join(d, 'data.darr')
+        a = darr.asarray(ap, np.arange(6, dtype='<i2'), metadata={'k': 1}) if kind == 'Array' else \
+            darr.asraggedarray(ap, [[1.5], [2.5, 3.5]], dtype='float32')
+        arg = {'name': name, './name': './' + name, 'sub/../name': 'sub/../' + name, '~/name': '~/' + name, '~': '~',
+               '$HOME/name': '$HOME/' + name, 'abs': os.path.join(cwd, name), 'abs-home': os.path.join(home, name)}[sp]
+        literal = os.path.normpath(os.path.join(cwd, arg))          # what the string names as given, from the working directory
+        if spec.get('aspath'):
+            arg = pathlib.Path(arg)
+        before = snapshot(d)
+        oldcwd, oldhome = os.getcwd(), os.environ.get('HOME')
+        os.chdir(cwd)
+        os.environ['HOME'] = home
+        try:
+            try:
+                a.archive(filepath=arg, compressiontype=spec['ct'], overwrite=ow)
+                exc = None
+            except Exception as e:
+                exc = e
+        finally:
+            os.chdir(oldcwd)
+            if oldhome is None:
+                os.environ.pop('HOME', None)
+            else:
+                os.environ['HOME'] = oldhome
+        after = snapshot(d)
+        tag = f'archive-spelling:{sp}:ow={ow}'
+        rel = os.path.relpath(literal, d)
+        changed = [k for k in before if after.get(k) != before[k]]
+        if not ow:
+            if changed:
+                out.viol('archive-refused-but-changed' if exc else 'archive-overwrite-not-refused', tag,
+                         f'overwrite=False, yet existing entries changed: {changed[:3]} (exception: {type(exc).__name__ if exc else None})')
+            elif os.path.lexists(literal) and not isinstance(exc, OSError):
+                out.viol('archive-overwrite-not-refused', tag, f'{literal} exists; {type(exc).__name__ if exc else "no exception"}')
+        else:
+            other = [k for k in changed if k != rel and not rel.startswith(k + os.sep) and k != '.']
+            if other:
+                out.viol('archive-overwrote-another-file', tag, f'overwrite=True replaced {other[:3]}, the path given names {rel}')
+    return out
 
 
 def _exec_copy(ctx, spec):
@@ -343,7 +405,13 @@ def pre_grid():
                 yield dict(spec, atom=[], items=[])
 
 
+def spelling_grid():
+    for kind, sp, ow, aspath, ct in itertools.product(['Array', 'Ragged'], SPELLINGS, [False, True], [False, True], ['gz', 'xz']):
+        yield {'f': 'archive-spelling', 'kind': kind, 'spelling': sp, 'ow': ow, 'aspath': aspath, 'ct': ct}
+
+
 def task_grid(ctx, col, shard):
+    enum_search(ctx, col, (s for i, s in enumerate(spelling_grid()) if i % NSHARDS == shard), lambda s: execute(ctx, s))
     if shard == 0:
         enum_search(ctx, col, pre_grid(), lambda s: execute(ctx, s))
     enum_search(ctx, col, (s for i, s in enumerate(grid()) if i % NSHARDS == shard), lambda s: execute(ctx, s))
